@@ -35,7 +35,7 @@ impl OperationControl for UnambiguousRepeat {
     fn get_match_length(&self) -> Option<usize> {
         self.operation.get_match_length().and_then(|match_length| {
             if self.min == self.max {
-                Some(self.min * match_length)
+                self.min.checked_mul(match_length)
             } else {
                 None
             }
@@ -43,7 +43,8 @@ impl OperationControl for UnambiguousRepeat {
     }
 
     fn get_minimum_match_length(&self) -> usize {
-        self.min * self.operation.get_minimum_match_length()
+        self.min
+            .saturating_mul(self.operation.get_minimum_match_length())
     }
 
     fn matches_empty_string(&self) -> u32 {
